@@ -4,20 +4,30 @@ impl Walrus {
     pub fn append_for_topic(&self, col_name: &str, raw_bytes: &[u8]) -> std::io::Result<()> {
         self.mark_topic_dirty(col_name);
         let writer = self.get_or_create_writer(col_name)?;
-        writer.write(raw_bytes)?;
+        // Count the entry before it can be read: a consumer that takes it between the write and
+        // a later increment decrements first, the saturating decrement swallows that, and the
+        // count stays one too high for good. A failed write takes the count back.
+        self.increment_topic_entry_count(col_name, 1);
+        if let Err(e) = writer.write(raw_bytes) {
+            self.decrement_topic_entry_count(col_name, 1);
+            return Err(e);
+        }
         #[cfg(walrus_verif)]
         crate::wal::verif::yield_point("aw_before_count");
-        self.increment_topic_entry_count(col_name, 1);
         Ok(())
     }
 
     pub fn batch_append_for_topic(&self, col_name: &str, batch: &[&[u8]]) -> std::io::Result<()> {
         self.mark_topic_dirty(col_name);
         let writer = self.get_or_create_writer(col_name)?;
-        writer.batch_write(batch)?;
+        // see append_for_topic
+        self.increment_topic_entry_count(col_name, batch.len() as u64);
+        if let Err(e) = writer.batch_write(batch) {
+            self.decrement_topic_entry_count(col_name, batch.len() as u64);
+            return Err(e);
+        }
         #[cfg(walrus_verif)]
         crate::wal::verif::yield_point("bw_before_count");
-        self.increment_topic_entry_count(col_name, batch.len() as u64);
         Ok(())
     }
 }
